@@ -40,7 +40,8 @@ Proof.
   all: match goal with Ha : schecked_add szero (spos ?sm) = Ok ?m |- _ =>
          assert (Hsm : 0 <= sm) by (apply Z.div_pos; nia);
          apply schecked_add_toZ0 in Ha; [|unfold wf0; cbn; lia|apply spos_wf0; exact Hsm];
-         destruct Ha as (Za & Wa & _); rewrite toZ_spos in Za; change (toZ szero) with 0 in Za
+         destruct Ha as (Za & Wa & _); rewrite toZ_spos in Za; change (toZ szero) with 0 in Za;
+         pose proof (wf0_toZ_abs m Wa) as Hsv
        end.
   all: repeat match goal with
        | Hg : sgtb ?m szero = _ |- _ => change szero with (spos 0) in Hg; rewrite sgtb_spos0 in Hg by (auto; lia)
